@@ -13,6 +13,7 @@ from argparse import Namespace
 from typing import Any, Dict, List
 
 from vf.core import Ob, scenario, simple_ob, sym_run
+from vf import instrument
 from vf.instrument import repo_root
 from vf.jasmrt import J, ensure
 from vf.pyvc import Name
@@ -161,7 +162,7 @@ def no_try():
     obs: List[Ob] = []
     for rel, fns in (("src/jasm/main.py", ["main", "start_configurations", "decide_assembly_or_binary"]),
                      ("src/jasm/match.py", ["perform_matching", "_do_matching_and_get_result", "__init__", "prepare_observers"])):
-        tree = ast.parse(open(os.path.join(repo_root(), rel)).read())
+        tree = instrument.parse_file(os.path.join(repo_root(), rel))
         for fn in ast.walk(tree):
             if isinstance(fn, ast.FunctionDef) and fn.name in fns:
                 has_try = any(isinstance(n, ast.Try) for n in ast.walk(fn))
@@ -188,14 +189,21 @@ def logger_cfg():
     lg = J.logcfg.logger
     old_handlers, old_level = list(lg.handlers), lg.level
     try:
-        lg.handlers[:] = []
-        J.logcfg.configure_logger(debug=False, info=True, enable_log_to_file=False, enable_log_to_terminal=True)
-        hs = [h for h in lg.handlers if isinstance(h, logging.StreamHandler)]
-        rec = logging.LogRecord(lg.name, logging.INFO, "x", 1, "RESULT: Pattern found\n", (), None)
-        ok = lg.level == logging.INFO and len(hs) == 1 and hs[0].level <= logging.INFO and hs[0].filter(rec) and lg.isEnabledFor(logging.INFO)
-        obs.append(simple_ob("configure_logger:default:POST", "jasm.logging_config.configure_logger", "POST",
-                             "with the default options INFO records ('Matched address', 'RESULT') reach a terminal handler", bool(ok), P,
-                             detail=f"level={lg.level} handlers={lg.handlers}", witness="logger"))
+        for debug in (False, True):
+            lg.handlers[:] = []
+            lg.setLevel(logging.WARNING)
+            J.logcfg.configure_logger(debug=debug, info=True, enable_log_to_file=False, enable_log_to_terminal=True)
+            hs = [h for h in lg.handlers if isinstance(h, logging.StreamHandler)]
+            oks = []
+            for msg in ("RESULT: Pattern found\n", "RESULT: Pattern not found\n", "Matched address: 401000\n"):
+                rec = logging.LogRecord(lg.name, logging.INFO, "x", 1, msg, (), None)
+                passing = [h for h in hs if h.level <= logging.INFO and h.filter(rec)]
+                oks.append(lg.isEnabledFor(logging.INFO) and bool(lg.filter(rec)) and len(passing) == 1)
+            want_level = logging.DEBUG if debug else logging.INFO
+            ok = lg.level == want_level and len(hs) == 1 and all(oks)
+            obs.append(simple_ob(f"configure_logger:debug={int(debug)}:POST", "jasm.logging_config.configure_logger", "POST",
+                                 "with or without --debug the INFO records ('Matched address', 'RESULT') reach exactly one terminal handler",
+                                 bool(ok), P, detail=f"level={lg.level} handlers={[(h, h.level, h.filters) for h in lg.handlers]}", witness=f"debug={debug}"))
         # the CLI defaults are info=True / terminal=True
         calls = []
         m = J.main
